@@ -523,8 +523,11 @@ func TestVerifToFileChild(t *testing.T) {
 	ans := func(a string) { fmt.Fprintf(res, "ANS %s\n", a) }
 	// c19a: probes — 9th/10th model parameter: router() writes a record with one Write (fix F46), updateFile() seals a
 	// torn tail before appending (fix F47); both probed on the real code (harness/e8/tofile_lines_test.go)
-	say(fmt.Sprintf("tf conf %d %d %d %d %d %d %d %d %d %d", b(sc.GZIP), sc.RotateSize, sc.RotateInterval, b(sc.WorkDir),
-		b(sc.SkipEmpty), sc.MaxInFlight, b(hasRev), b(vfE8ProbeCloseClears()), b(vfE8ProbeOneWrite()), b(vfE8ProbeSealsTail())))
+	// round 11 (F47b): 11th model parameter — sealTornTail answers a failed READ of the last byte with a warning (1) or with
+	// an error = exit (0, committed F47); probed once by the parent on the real updateFile() (vfE8ProbeSealReadWarns, env)
+	say(fmt.Sprintf("tf conf %d %d %d %d %d %d %d %d %d %d %d", b(sc.GZIP), sc.RotateSize, sc.RotateInterval, b(sc.WorkDir),
+		b(sc.SkipEmpty), sc.MaxInFlight, b(hasRev), b(vfE8ProbeCloseClears()), b(vfE8ProbeOneWrite()), b(vfE8ProbeSealsTail()),
+		b(vfE8ProbeSealReadWarns() == 1)))
 	ans("ok")
 	start := time.Now()
 	for _, p := range sc.Pre {
@@ -1188,6 +1191,7 @@ func TestVerifToFileCorr(t *testing.T) {
 	} else {
 		fmt.Printf("HIST gz-decoder-selftest-cases %d\n", n)
 	}
+	fmt.Printf("HIST seal-read-warns-probe:%d 1\n", vfE8ProbeSealReadWarns()) // round 11: probed once here, children inherit it (env)
 	dir := os.Getenv("VERIF_OUT")
 	if dir == "" {
 		dir = t.TempDir()
